@@ -892,12 +892,13 @@ def run(check: core.Check) -> None:
                                              "Calls.sens5.cfg", "Calls.strict.cfg", "Calls.strict2.cfg", "Calls.strict3.cfg",
                                              "Calls.fixed.cfg")]
     if quick:
-        small_jobs = [("Calls", cfg, {}), ("CallsEmit", ecfg0, {}), ("CallsEmit", ncfg0, {})] + small_jobs
+        # (quick: Calls.emit.quick.cfg carries the invariants of Calls.quick.cfg too -- one run proves and emits)
+        small_jobs = [("CallsEmit", ecfg0, {}), ("CallsEmit", ncfg0, {})] + small_jobs
     core.scratch()
     pool = ThreadPoolExecutor(max_workers=5 if quick else 3)
     started = {(m, c): pool.submit(core.run_tlc, m, c, workers=4, timeout=3000, **kw) for m, c, kw in small_jobs}
-    sim_job = pool.submit(core.simulate_cases, "CallsEmit", "Calls.sim.cfg", 800 if quick else 20000, depth=8,
-                          seed=check.seed + 11, check=check)
+    sim_job = pool.submit(core.simulate_cases, "CallsEmit", "Calls.sim.cfg", 500 if quick else 20000, depth=8,
+                          seed=check.seed + 11, check=check, first_num=300 if quick else None)
 
     def tlc(module: str, cfg_name: str, **kw: Any) -> core.TLCResult:
         fut = started.pop((module, cfg_name), None)
@@ -905,10 +906,12 @@ def run(check: core.Check) -> None:
 
     # 1. the design: TLC proves the three clauses for every call of the bounded space on the model
     # (no -coverage on this run: TLC's coverage bookkeeping of the deeply recursive operators exhausts the heap)
-    res = core.require_ok(tlc("Calls", cfg, timeout=3400), "Calls exhaustive")
+    res = core.require_ok(tlc("CallsEmit", ecfg0, timeout=3400) if quick else tlc("Calls", cfg, timeout=3400), "Calls exhaustive")
+    if quick:
+        started[("CallsEmit", ecfg0)] = pool.submit(lambda: res)   # the same run is the emission run below
     if res.distinct < 5000:
         raise core.MachineryError("Calls exhaustive run explored suspiciously few states")
-    check.add_tlc("exhaustive:" + cfg, res)
+    check.add_tlc(("exhaustive+emit:" + ecfg0) if quick else ("exhaustive:" + cfg), res)
     cov = core.require_ok(tlc("Calls", "Calls.cov.cfg", coverage=True, timeout=1200), "Calls coverage")
     core.require_coverage(cov, ACTIONS, "Calls")
     check.add_tlc("coverage:Calls.cov.cfg", cov)
@@ -935,11 +938,13 @@ def run(check: core.Check) -> None:
     # 2. S->C: every TLC case through the real checker and real CPython, adjudicated by TLC
     ecfg = "Calls.emit.quick.cfg" if quick else "Calls.emit.thorough.cfg"
     em = core.require_ok(tlc("CallsEmit", ecfg, timeout=3000), "Calls emit")
-    check.add_tlc("emit:" + ecfg, em)
+    if not quick:
+        check.add_tlc("emit:" + ecfg, em)
     libdata, cases = split_emitted(em)
     if not cases:
         raise core.MachineryError("no cases emitted")
-    limit = 12000 if quick else 10**7
+    # quick: a seeded sample of the first-built slice (every case is proved on the model; thorough replays them all)
+    limit = 1500 if quick else 10**7
     exhaustive = len(cases) <= limit
     if not exhaustive:
         cases = rnd.sample(cases, limit)
